@@ -77,7 +77,7 @@ impl<'a> Gen<'a> {
             rels.push(decls.len());
             decls.push(Decl { name: "R".into(), kind: Kind::Rel, args: vec![Sort::S] });
         }
-        Gen { r, bias, p: Program { decls, cmds: vec![] }, nullary, unary, binary, num, funcs, rels, nomerge, pending: vec![], batch_mode }
+        Gen { r, bias, p: Program { decls, cmds: vec![], expect: vec![] }, nullary, unary, binary, num, funcs, rels, nomerge, pending: vec![], batch_mode }
     }
 
     pub fn term(&mut self, depth: usize) -> Pat {
@@ -409,8 +409,32 @@ impl<'a> Gen<'a> {
                 head: vec![Action::Set(gt, vec![Pat::Var(1)], Pat::Var(2))],
             },
         };
+        let variant0 = matches!(&rule.head[0], Action::Set(_, a, _) if matches!(a[0], Pat::App(_, ref v) if v.is_empty()));
         script.push(Cmd::Rule(rule));
         script.push(Cmd::Run(1));
+        if variant0 {
+            // known answer: every row of gf (keys are distinct ground terms, nothing unioned yet)
+            // writes its value into gt(K) within this one iteration
+            let m = match &self.p.decls[gt].kind {
+                Kind::Func(m) => m.clone(),
+                _ => Merge::Or,
+            };
+            let vals: Vec<i64> = script
+                .iter()
+                .filter_map(|c| match c {
+                    Cmd::Act(Action::Set(_, _, Pat::Int(z))) => Some(*z),
+                    _ => None,
+                })
+                .collect();
+            let fold = vals[1..].iter().fold(vals[0], |a, z| match m {
+                Merge::Or => a | z,
+                Merge::And => a & z,
+                Merge::Min => a.min(*z),
+                _ => a.max(*z),
+            });
+            let fact = format!("(= ({} ({})) {fold})", self.p.decls[gt].name, self.p.decls[k].name);
+            self.p.expect.push((script.len() - 1, fact));
+        }
         // a second batch: more patterns, possibly a union making two keys collide, run again
         let t = self.term(2);
         script.push(Cmd::Act(Action::Set(gf, vec![t], Pat::Int(*self.r.pick(&BITS)))));
